@@ -61,7 +61,8 @@ MUTS = {
  "I1_iterable_prepass": ("_attributes.py", "    def __init__(self, value: Union[Iterable[S], _Ref[Tuple[S, ...]]], name: str):\n        super().__init__(", "    def __init__(self, value: Union[Iterable[S], _Ref[Tuple[S, ...]]], name: str):\n        if not isinstance(value, _Ref):\n            for v in value:\n                if isinstance(v, (list, tuple, dict)):\n                    raise TypeError(f\"Unable to instantiate `{type(self).__name__}` from nested items.\")\n        super().__init__("),
  "I2_iterable_first_probe": ("_attributes.py", "    def __init__(self, value: Union[Iterable[S], _Ref[Tuple[S, ...]]], name: str):\n        super().__init__(", "    def __init__(self, value: Union[Iterable[S], _Ref[Tuple[S, ...]]], name: str):\n        if not isinstance(value, _Ref) and isinstance(next(iter(value), None), dict):\n            raise TypeError(\"dict items\")\n        super().__init__("),
  "I3_ctor_prepass_kernel_shape": ("opset/ai/onnx/v17.py", "            kernel_shape=AttrInt64s(kernel_shape, name=\"kernel_shape\"),\n            pads=AttrInt64s.maybe(pads, name=\"pads\"),\n            storage_order", "            kernel_shape=AttrInt64s(kernel_shape if all(k > 0 for k in kernel_shape) else [], name=\"kernel_shape\"),\n            pads=AttrInt64s.maybe(pads, name=\"pads\"),\n            storage_order"),
- "I4_maybe_prepass": ("_attributes.py", "        return cls(tuple(value), name) if value is not None else None", "        return cls(tuple(value), name) if value is not None and len(list(value)) >= 0 else None"),
+ "I4_maybe_prepass": ("_attributes.py", "        return cls(value if isinstance(value, _Ref) else tuple(value), name)", "        if not isinstance(value, _Ref) and len(list(value)) < 0:\n            return None\n        return cls(value if isinstance(value, _Ref) else tuple(value), name)"),
+ "F5_maybe_forgets_ref": ("_attributes.py", "        return cls(value if isinstance(value, _Ref) else tuple(value), name)", "        return cls(tuple(value), name)"),
  "I5_ml_ctor_sorted_once": ("opset/ai/onnx/ml/v3.py", "            coefficients=AttrFloat32s(coefficients, name=\"coefficients\"),\n            intercepts=AttrFloat32s.maybe(intercepts, name=\"intercepts\"),\n            multi_class", "            coefficients=AttrFloat32s(coefficients if isinstance(coefficients, (list, tuple)) else list(coefficients)[1:], name=\"coefficients\"),\n            intercepts=AttrFloat32s.maybe(intercepts, name=\"intercepts\"),\n            multi_class"),
  "I6_float_numpy_as_int": ("_attributes.py", "        if isinstance(self.value, int):\n            return make_attribute(self._name, float(self.value))", "        if isinstance(self.value, (int, np.number)):\n            return make_attribute(self._name, float(int(self.value)))"),
  "I7_lazy_tuple": ("_attributes.py", "value=value if isinstance(value, _Ref) else tuple(value), name=name", "value=value if isinstance(value, (_Ref, tuple, range)) else tuple(value) if not hasattr(value, 'keys') and not hasattr(value, 'mapping') else value, name=name"),
